@@ -29,6 +29,19 @@ ChkD(e, prop, clause, cond, detail) ==
 \* a premise the DRIVER must establish; its failure is a machinery failure, never a verdict
 Premise(e, clause, cond) == IF cond THEN TRUE ELSE PrintT(<< "REJECT", e.id, "MACHINERY", clause >>)
 
+\* equality of a decoded frame (cf, from the code) with the reference decoding (sf)
+SameDecoded(sf, cf) ==
+    /\ cf.cls = sf.cls
+    /\ CASE sf.cls = "ContentHeader" ->
+               /\ cf.class_id = sf.class_id /\ cf.weight = sf.weight /\ cf.size = sf.size
+               /\ \A nm \in PropNames : SameValue(cf.props[nm], sf.props[nm])
+         [] sf.cls = "ContentBody" -> cf.b = sf.b
+         [] sf.cls = "Heartbeat" -> TRUE
+         [] sf.cls = "ProtocolHeader" -> cf.v = sf.v
+         [] OTHER -> LET m == MethodByName(sf.cls) IN
+                     \A i \in 1..Len(m.args) : SameValue(cf.vals[m.args[i].n], sf.vals[m.args[i].n])
+
+
 \* ---- value encode/decode events --------------------------------------------
 SpecEnc(pos, lg, v) ==
     CASE pos = "top"   -> EncVal(lg, v)
@@ -112,6 +125,7 @@ EncodeValue(e) ==
     \* C15: the specification never reads st.tz -- bytes and decoded instant are functions of the value alone
     /\ Chk(e, "C15", "bytes_independent_of_time_zone", spec.ok => (okc /\ e.out.b = spec.b))
     /\ Chk(e, "C15", "decoded_instant_is_utc", (spec.ok /\ okc) => (e.dec.r = "ok" /\ SameValue(e.dec.v, want)))
+    /\ Chk(e, "C16", "concurrent_encode_is_pure", (spec.ok => (okc /\ e.out.b = spec.b)) /\ (~spec.ok => ~okc))
     \* C12: deterministic, input untouched, keys ascending at every level
     /\ Chk(e, "C12", "second_encoding_identical", okc => (e.out2.r = "ok" /\ e.out2.b = e.out.b))
     /\ Chk(e, "C12", "input_not_mutated", e.post = e.in)
@@ -178,6 +192,10 @@ RoundTrip(e) ==
     /\ Chk(e, "C10", "channel_survives", (dec /\ kind \notin {"ProtocolHeader", "Heartbeat"}) => un.ch = ch)
     /\ Chk(e, "C10", "body_survives", (dec /\ kind = "ContentBody") => (un.f.cls = "ContentBody" /\ un.f.b = f.b))
     /\ Chk(e, "C10", "version_survives", (dec /\ kind = "ProtocolHeader") => (un.f.cls = "ProtocolHeader" /\ un.f.v = f.v))
+    \* C16: under any interleaving with other callers the result is the pure function of the arguments
+    /\ Chk(e, "C16", "concurrent_encode_is_pure", (spec.ok => (okc /\ e.out.b = spec.b)) /\ (~spec.ok => ~okc))
+    /\ Chk(e, "C16", "concurrent_decode_is_pure",
+           dec => LET r == Unmarshal(e.out.b) IN r.k = "frame" => (un.n = r.n /\ un.ch = r.ch /\ SameDecoded(r.f, un.f)))
     \* C12: deterministic and non-mutating
     /\ Chk(e, "C12", "second_encoding_identical", okc => (e.out2.r = "ok" /\ e.out2.b = e.out.b))
     /\ Chk(e, "C12", "frame_not_mutated", e.post = e.in)
@@ -299,17 +317,6 @@ UnmarshalingExc(e) ==
     /\ UNCHANGED st
 
 \* ---- frame.unmarshal on arbitrary bytes (C05, C06, C08, C09, C13) ------------
-SameDecoded(sf, cf) ==
-    /\ cf.cls = sf.cls
-    /\ CASE sf.cls = "ContentHeader" ->
-               /\ cf.class_id = sf.class_id /\ cf.weight = sf.weight /\ cf.size = sf.size
-               /\ \A nm \in PropNames : SameValue(cf.props[nm], sf.props[nm])
-         [] sf.cls = "ContentBody" -> cf.b = sf.b
-         [] sf.cls = "Heartbeat" -> TRUE
-         [] sf.cls = "ProtocolHeader" -> cf.v = sf.v
-         [] OTHER -> LET m == MethodByName(sf.cls) IN
-                     \A i \in 1..Len(m.args) : SameValue(cf.vals[m.args[i].n], sf.vals[m.args[i].n])
-
 KindOfType(ty, cls) == CASE ty = 1 -> cls \in MethodNames
                          [] ty = 2 -> cls = "ContentHeader"
                          [] ty = 3 -> cls = "ContentBody"
@@ -339,6 +346,9 @@ UnmarshalEv(e) ==
     /\ Chk(e, "C06", "envelope_truth", okc => EnvelopeTruth(b, o))
     /\ Chk(e, "C06", "valid_frame_decoded_exactly",
            wf => (okc /\ o.n = spec.n /\ o.ch = spec.ch /\ SameDecoded(spec.f, o.f)))
+    /\ Chk(e, "C16", "concurrent_decode_is_pure",
+           (wf => (okc /\ o.n = spec.n /\ o.ch = spec.ch /\ SameDecoded(spec.f, o.f)))
+           /\ (spec.k \in {"incomplete", "malformed"} => (o.r = "exc" \/ (okc /\ spec.k = "malformed"))))
     /\ Chk(e, "C09", "only_library_exception", o.r = "exc" => (o.lib /\ o.type = "UnmarshalingException"))
     /\ Chk(e, "C08", "terminates_within_step_budget", o.r # "budget")
     /\ Chk(e, "C08", "steps_linear_in_input", e.steps <= 16 * Len(b) + 256)
@@ -507,6 +517,128 @@ SameBytes(e) ==
     /\ UNCHANGED st
 
 ToggleArg(a) == IF a = "false" THEN FALSE ELSE TRUE      \* "true", "noarg" -> TRUE
+
+\* ---- the object world (Api.tla): identity, aliasing, purity (C16, C12) -----------
+\* st.heap  : Seq([cls, vals, cell])     vals: argument -> abstract value ; cell: index into st.cells or 0
+\* st.cells : Seq([kind, v, owner])      kind "table" (v = abstract table) | "props" (v = property record)
+\* st.ucell : Seq(cell index)            the j-th container the USER created (dict or Basic.Properties)
+HeapInit == [heap |-> <<>>, cells |-> <<>>, ucell |-> <<>>]
+H == st.heap
+
+TableSlot(cls) ==     \* the (single) table argument of a method class, "properties" for a content header, "" if none
+    IF cls = "ContentHeader" THEN "properties"
+    ELSE LET m == MethodByName(cls) idx == { i \in 1..Len(m.args) : m.args[i].ty = "table" } IN
+         IF idx = {} THEN "" ELSE m.args[CHOOSE i \in idx : TRUE].n
+
+DefaultProps == [nm \in PropNames |-> IF nm = "cluster_id" THEN MkStr(<<>>) ELSE NoneV]
+EmptyTable == MkTable(<<>>)
+
+\* the frame an object denotes in state h: the table slot is read through its cell
+ViewOf(h, o) ==
+    IF o.cls \in {"ContentBody", "Heartbeat", "ProtocolHeader"} THEN o.f
+    ELSE IF o.cls = "ContentHeader" THEN [cls |-> "ContentHeader", weight |-> o.vals.weight, size |-> o.vals.size,
+                                     size_ok |-> TRUE, class_id |-> o.vals.class_id, props |-> h.cells[o.cell].v]
+    ELSE IF o.cell = 0 THEN [cls |-> o.cls, vals |-> o.vals]
+    ELSE [cls |-> o.cls, vals |-> [a \in DOMAIN o.vals |-> IF a = TableSlot(o.cls) THEN h.cells[o.cell].v ELSE o.vals[a]]]
+
+Upsert(tbl, k, v) ==
+    LET pos == SelectInSeq(tbl.e, LAMBDA x : x.k = k) IN
+    IF pos = 0 THEN MkTable(Append(tbl.e, [k |-> k, v |-> v])) ELSE MkTable([tbl.e EXCEPT ![pos] = [k |-> k, v |-> v]])
+
+\* -- new state after each action (h = [heap, cells, ucell]) --
+HNewUser(h, kind, v) == [h EXCEPT !.cells = Append(@, [kind |-> kind, v |-> v, owner |-> "user"]),
+                                  !.ucell = Append(@, Len(h.cells) + 1)]
+
+\* constructor of a method class: kw = given arguments (abstract), uref = 0 or the user dict passed for the table slot
+HConstructMethod(h, cls, kw, uref) ==
+    LET m    == MethodByName(cls)
+        slot == TableSlot(cls)
+        val(a) == IF a.n \in DOMAIN kw THEN kw[a.n] ELSE IF a.def.t = "nodef" THEN NoneV ELSE a.def
+        vals == [nm \in { m.args[i].n : i \in 1..Len(m.args) } |-> val(m.args[CHOOSE i \in 1..Len(m.args) : m.args[i].n = nm])]
+        \* "arguments or {}": the caller's dict is kept only when it is non-empty
+        alias == uref # 0 /\ h.cells[h.ucell[uref]].v.e # <<>>
+        lit   == slot # "" /\ uref = 0 /\ slot \in DOMAIN kw /\ kw[slot].t = "table" /\ kw[slot].e # <<>>
+        newcell == IF lit THEN [kind |-> "table", v |-> kw[slot], owner |-> "user"]
+                   ELSE [kind |-> "table", v |-> EmptyTable, owner |-> "lib"]
+        cellid == IF slot = "" THEN 0 ELSE IF alias THEN h.ucell[uref] ELSE Len(h.cells) + 1
+    IN [h EXCEPT !.cells = IF slot = "" \/ alias THEN @ ELSE Append(@, newcell),
+                 !.heap = Append(@, [cls |-> cls, vals |-> vals, cell |-> cellid])]
+
+\* ContentHeader(weight, size, properties): keeps the caller's property object, else a fresh default one
+HConstructHeader(h, size, uref) ==
+    LET cellid == IF uref # 0 THEN h.ucell[uref] ELSE Len(h.cells) + 1 IN
+    [h EXCEPT !.cells = IF uref # 0 THEN @ ELSE Append(@, [kind |-> "props", v |-> DefaultProps, owner |-> "lib"]),
+              !.heap = Append(@, [cls |-> "ContentHeader", vals |-> [weight |-> 0, size |-> size, class_id |-> -1], cell |-> cellid])]
+
+HMutateCell(h, c, key, name, v) ==
+    [h EXCEPT !.cells[c].v = IF h.cells[c].kind = "table" THEN Upsert(@, key, v) ELSE [@ EXCEPT ![name] = v]]
+
+\* a decoded frame becomes a new object whose containers are fresh, library-allocated
+HDecoded(h, f) ==
+    IF f.cls = "ContentHeader" THEN
+        [h EXCEPT !.cells = Append(@, [kind |-> "props", v |-> f.props, owner |-> "lib"]),
+                  !.heap = Append(@, [cls |-> "ContentHeader", vals |-> [weight |-> f.weight, size |-> f.size, class_id |-> f.class_id],
+                                      cell |-> Len(h.cells) + 1])]
+    ELSE IF f.cls \in MethodNames THEN
+        LET slot == TableSlot(f.cls) IN
+        [h EXCEPT !.cells = IF slot = "" THEN @ ELSE Append(@, [kind |-> "table", v |-> f.vals[slot], owner |-> "lib"]),
+                  !.heap = Append(@, [cls |-> f.cls, vals |-> f.vals, cell |-> IF slot = "" THEN 0 ELSE Len(h.cells) + 1])]
+    ELSE [h EXCEPT !.heap = Append(@, [cls |-> f.cls, vals |-> [x \in {"_"} |-> NoneV], cell |-> 0, f |-> f])]   \* body, heartbeat, protocol header
+
+\* -- the observation logged after every action agrees with the specified state --
+ObjAgrees(h, o, s) ==
+    /\ s.cls = o.cls
+    /\ IF o.cls = "ContentHeader" THEN s.f.size = o.vals.size /\ \A nm \in PropNames : SameValue(s.f.props[nm], h.cells[o.cell].v[nm])
+       ELSE IF o.cls \in MethodNames THEN
+            LET v == ViewOf(h, o).vals IN \A a \in DOMAIN o.vals : SameValue(s.f.vals[a], v[a])
+       ELSE TRUE
+
+SnapAgrees(h, e) ==
+    /\ Len(e.snap) = Len(h.heap)
+    /\ \A i \in 1..Len(h.heap) : ObjAgrees(h, h.heap[i], e.snap[i])
+IdentityAgrees(h, e) ==
+    /\ \A i, j \in 1..Len(h.heap) :
+          (h.heap[i].cell # 0 /\ h.heap[j].cell # 0 /\ Len(e.snap) = Len(h.heap)) =>
+              ((e.snap[i].cid = e.snap[j].cid) <=> (h.heap[i].cell = h.heap[j].cell))
+    /\ \A i \in 1..Len(h.heap), j \in 1..Len(h.ucell) :
+          (h.heap[i].cell # 0 /\ Len(e.snap) = Len(h.heap) /\ Len(e.uids) = Len(h.ucell)) =>
+              ((e.snap[i].cid = e.uids[j]) <=> (h.heap[i].cell = h.ucell[j]))
+\* the model's own invariant: a library-allocated container belongs to exactly one object
+FreshLibraryCells(h) == \A c \in 1..Len(h.cells) : h.cells[c].owner = "lib" => Cardinality({ i \in 1..Len(h.heap) : h.heap[i].cell = c }) <= 1
+
+HStep(e, h2) ==
+    /\ Chk(e, "C16", "objects_have_the_specified_values", SnapAgrees(h2, e))
+    /\ Chk(e, "C16", "containers_shared_exactly_as_specified", IdentityAgrees(h2, e))
+    /\ Chk(e, "C16", "library_containers_are_fresh", FreshLibraryCells(h2))
+    /\ Chk(e, "C12", "encoding_does_not_mutate", SnapAgrees(h2, e))
+    /\ st' = [st EXCEPT !.heap = h2]
+
+HReset(e) == st' = [st EXCEPT !.heap = HeapInit]
+HNewDict(e) == HStep(e, HNewUser(H, "table", e.v))
+HNewProps(e) == HStep(e, HNewUser(H, "props", e.v))
+HConstruct(e) ==
+    LET ok == e.out.r = "ok"
+        h2 == IF ~ok THEN H
+              ELSE IF e.cls = "ContentHeader" THEN HConstructHeader(H, e.size, e.uref)
+              ELSE HConstructMethod(H, e.cls, e.kw, e.uref)
+    IN HStep(e, h2)
+HMutate(e) ==
+    LET c == IF e.via = "obj" THEN H.heap[e.i].cell ELSE H.ucell[e.i] IN HStep(e, HMutateCell(H, c, e.key, e.name, e.v))
+HSetAttr(e) == HStep(e, [H EXCEPT !.heap[e.i].vals[e.arg] = e.v])
+HSetSlot(e) == HStep(e, [H EXCEPT !.heap[e.i].cell = H.ucell[e.u]])
+HMarshal(e) ==
+    LET f == ViewOf(H, H.heap[e.i]) spec == Marshal(legacy, f, e.ch) okc == e.out.r = "ok" IN
+    /\ Chk(e, "C16", "result_depends_only_on_arguments_and_switch", (spec.ok => (okc /\ e.out.b = spec.b)) /\ (~spec.ok => ~okc))
+    /\ Chk(e, "C12", "same_bytes_as_the_pure_function", spec.ok => (okc /\ e.out.b = spec.b))
+    /\ HStep(e, H)
+HUnmarshal(e) ==
+    LET r == Unmarshal(e.b) o == e.out IN
+    /\ Chk(e, "C16", "result_depends_only_on_the_bytes",
+           IF r.k = "frame" THEN o.r = "ok" /\ o.n = r.n /\ o.ch = r.ch /\ SameDecoded(r.f, o.f)
+           ELSE IF r.k \in {"incomplete", "malformed"} THEN o.r = "exc" ELSE TRUE)
+    /\ HStep(e, IF r.k = "frame" /\ o.r = "ok" THEN HDecoded(H, r.f) ELSE H)
+HToggle(e) == st' = [st EXCEPT !.legacy = ToggleArg(e.arg)]
+
 Toggle(e) == st' = [st EXCEPT !.legacy = ToggleArg(e.arg)]
 SetTZ(e)  == st' = [st EXCEPT !.tz = e.z]
 
@@ -536,6 +668,16 @@ Step == /\ l <= Len(Events)
              [] e.a = "CharBlock"   -> CharBlock(e)
              [] e.a = "Observe"     -> Observe(e)
              [] e.a = "SameBytes"   -> SameBytes(e)
+             [] e.a = "SchedulerStats" -> UNCHANGED st
+             [] e.a = "HReset"      -> HReset(e)
+             [] e.a = "HNewDict"    -> HNewDict(e)
+             [] e.a = "HNewProps"   -> HNewProps(e)
+             [] e.a = "HConstruct"  -> HConstruct(e)
+             [] e.a = "HMutate"     -> HMutate(e)
+             [] e.a = "HSetAttr"    -> HSetAttr(e)
+             [] e.a = "HSetSlot"    -> HSetSlot(e)
+             [] e.a = "HMarshal"    -> HMarshal(e)
+             [] e.a = "HUnmarshal"  -> HUnmarshal(e)
              [] e.a = "StreamReset" -> StreamReset(e)
              [] e.a = "Send"        -> SendEv(e)
              [] e.a = "Deliver"     -> DeliverEv(e)
@@ -547,7 +689,7 @@ Step == /\ l <= Len(Events)
 
 Init == /\ l = 1
         /\ st = [legacy |-> FALSE, tz |-> "UTC", wire |-> <<>>, buf |-> <<>>, sent |-> <<>>, got |-> 0, used |-> 0,
-                  heap |-> <<>>]
+                  heap |-> HeapInit]
 Spec == Init /\ [][Step]_vars
 TraceConsumed == TLCGet("stats").diameter - 1 = Len(Events)
 =============================================================================
